@@ -47,7 +47,12 @@ def run_chunk(args):
     # every other chunk runs its full nodes with ret_sys_msg on (as every mesh node does): user messages and their fragments
     # are still queued / re-assembled, only other system types are reported instead
     retsys = {"ret_sys_msg": True} if (seed * 2654435761 >> 11) & 1 else {}
-    nodes = [dict(addr=a, kind=kinds[a], opts=dict(retsys, **({} if frag else {"fragmentation": False}))) for a in addrs]
+    # every fourth chunk runs the whole network with allow_multicast off (each node then relays through the other of its two
+    # "pass it along" branches and listens on a private pipe-0 address)
+    mc_off = (seed * 2654435761 >> 17) % 4 == 0
+    mco = {"allow_multicast": False} if mc_off else {}
+    nodes = [dict(addr=a, kind=kinds[a], opts=dict(retsys, **mco, **({} if frag else {"fragmentation": False})), reassign=mc_off)
+             for a in addrs]
     # some chunks run in a private address space (prefix / suffix changed after construction, node_address re-assigned)
     priv = dict(prefix=0x5D, suffix=[0x1E, 0x2D, 0x4B, 0x87, 0x78, 0xB4]) if (seed * 2654435761 >> 13) % 3 == 0 else {}
     ns = net.NetSim(nodes, seed=seed, jitter=jitter, **priv)
@@ -58,7 +63,8 @@ def run_chunk(args):
         js.append(net.job_write(name[s], d, t, msg, chk=["C05", "C07"]))
     tr = ns.run(js)
     tr["meta"] = dict(addrs=[oct(a) for a in addrs], kinds={oct(a): k for a, k in kinds.items()}, seed=seed, jitter=jitter,
-                      frag=frag, ret_sys_msg=bool(retsys), private_addresses=bool(priv), jobs=[[oct(s), oct(d), t, n] for (s, d, t, n) in jobs])
+                      frag=frag, ret_sys_msg=bool(retsys), private_addresses=bool(priv), allow_multicast=not mc_off,
+                      jobs=[[oct(s), oct(d), t, n] for (s, d, t, n) in jobs])
     return tr
 
 
